@@ -12,6 +12,7 @@ pread/pwrite/... is observed (differential harness), not proved. Proved here:
   (c) the open-flag mapping equals std's rules on all 32 settings.
 -/
 import Compio.Lemmas.BufShape
+import Compio.Model.DirUtil
 
 namespace Compio.Props.C08
 
@@ -432,5 +433,203 @@ example : flagWord [.CLOEXEC, .RDONLY] (keepCustom customMasks (0o400000 + 1)) %
 
 example : openFlags true true false true false = some [.CLOEXEC, .RDWR, .CREATE] := rfl
 example : openFlags true false true false false = none := rfl
+
+/-! ## (d) directory utilities: the decision logic of `DirBuilder::create_dir_all` -/
+
+section DirUtil
+
+open Compio.DirUtil
+open Compio.Gen.DirBuilder (firstAttempt secondAttempt)
+
+/-! the regenerated arms, evaluated -/
+
+theorem first_ok (b : Bool) : evalArms firstAttempt (.ok ()) b = .retOk := by
+  cases b <;> rfl
+
+theorem first_enoent (b : Bool) : evalArms firstAttempt (.error ENOENT) b = .fall := by
+  cases b <;> rfl
+
+theorem first_err (e : Nat) (he : e ≠ ENOENT) (b : Bool) :
+    evalArms firstAttempt (.error e) b = if b then .retOk else .retErr := by
+  have : (e == 2) = false := by simpa [ENOENT] using he
+  cases b <;> simp [firstAttempt, evalArms, armMatches, this]
+
+theorem second_ok (b : Bool) : evalArms secondAttempt (.ok ()) b = .retOk := by
+  cases b <;> rfl
+
+theorem second_err (e : Nat) (b : Bool) :
+    evalArms secondAttempt (.error e) b = if b then .retOk else .retErr := by
+  cases b <;> simp [secondAttempt, evalArms, armMatches]
+
+/-- the specification of a `create_dir_all` result: `Ok` with the path a directory, or an error with the path
+not a directory -/
+def Good {σ : Type} (ops : FsOps σ) (r : σ × Except Nat Unit) (p : Path) : Prop :=
+  match r.2 with
+  | .ok _ => ops.isDir r.1 p = true
+  | .error _ => ops.isDir r.1 p = false
+
+theorem good_ok {σ : Type} (ops : FsOps σ) (s : σ) (p : Path) (h : ops.isDir s p = true) :
+    Good ops (s, .ok ()) p := h
+
+theorem good_err {σ : Type} (ops : FsOps σ) (s : σ) (p : Path) (e : Nat) (h : ops.isDir s p = false) :
+    Good ops (s, .error e) p := h
+
+/-- **`create_dir_all` answers `Ok` iff the path is a directory afterwards** — for every lawful file system,
+every state and every path, with the arms REGENERATED from compio-fs/src/utils/mod.rs: `Ok(())` ⇒ the path is a
+directory in the resulting state; an error ⇒ it is not. So "exists but is a regular file / a dangling symlink"
+is never reported as success, and an existing directory (also behind a symlink) never as failure. -/
+theorem create_dir_all_spec {σ : Type} (ops : FsOps σ) (hl : Lawful ops) :
+    ∀ (fuel : Nat) (s : σ) (p : Path), p.length < fuel →
+      Good ops (cda ops firstAttempt secondAttempt fuel s p) p := by
+  intro fuel
+  induction fuel with
+  | zero => intro s p h; omega
+  | succ n ih =>
+    intro s p hlen
+    simp only [cda]
+    cases hm : ops.mkdir s p with
+    | mk s1 r1 =>
+      cases r1 with
+      | ok u =>
+        cases u
+        have hok := hl.mkdir_ok s p (by rw [hm])
+        rw [hm] at hok
+        simp only [first_ok]
+        exact good_ok ops s1 p hok
+      | error e =>
+        have hs1 : s1 = s := by
+          have := hl.mkdir_err s p e (by rw [hm]); rw [hm] at this; exact this
+        subst hs1
+        by_cases he : e = ENOENT
+        · subst he
+          simp only [first_enoent]
+          cases p with
+          | nil =>
+            have h1 := hl.mkdir_enoent s1 [] (by rw [hm])
+            rw [hl.root] at h1; cases h1
+          | cons c cs =>
+            have hl2 : (c :: cs).dropLast.length < n := by
+              simp only [List.length_dropLast, List.length_cons] at *; omega
+            have ih2 := ih s1 (c :: cs).dropLast hl2
+            simp only []
+            cases hr : (cda ops firstAttempt secondAttempt n s1 (c :: cs).dropLast).2 with
+            | error e2 =>
+              simp only []
+              apply good_err
+              unfold Good at ih2
+              rw [hr] at ih2
+              cases hd : ops.isDir (cda ops firstAttempt secondAttempt n s1 (c :: cs).dropLast).1 (c :: cs) with
+              | false => rfl
+              | true =>
+                have := hl.parent _ _ hd
+                rw [ih2] at this; cases this
+            | ok u2 =>
+              cases u2
+              simp only []
+              cases hm3 : ops.mkdir (cda ops firstAttempt secondAttempt n s1 (c :: cs).dropLast).1 (c :: cs) with
+              | mk s3 r3 =>
+                cases r3 with
+                | ok u3 =>
+                  cases u3
+                  have hok := hl.mkdir_ok _ (c :: cs) (by rw [hm3])
+                  rw [hm3] at hok
+                  simp only [second_ok]
+                  exact good_ok ops s3 _ hok
+                | error e3 =>
+                  simp only [second_err]
+                  cases hb : ops.isDir s3 (c :: cs) with
+                  | true => simp only [if_true]; exact good_ok ops s3 _ hb
+                  | false => simp only [Bool.false_eq_true, if_false, errOf]; exact good_err ops s3 _ e3 hb
+        · simp only [first_err e he]
+          cases hb : ops.isDir s1 p with
+          | true => simp only [if_true]; exact good_ok ops s1 p hb
+          | false => simp only [Bool.false_eq_true, if_false, errOf]; exact good_err ops s1 p e hb
+
+/-- the two directions spelled out -/
+theorem create_dir_all_ok_iff_dir {σ : Type} (ops : FsOps σ) (hl : Lawful ops) (s : σ) (p : Path) :
+    let r := cda ops firstAttempt secondAttempt (p.length + 1) s p
+    (r.2 = .ok () ↔ ops.isDir r.1 p = true) := by
+  intro r
+  have h := create_dir_all_spec ops hl (p.length + 1) s p (by omega)
+  unfold Good at h
+  show r.2 = .ok () ↔ ops.isDir r.1 p = true
+  change (match r.2 with | .ok _ => ops.isDir r.1 p = true | .error _ => ops.isDir r.1 p = false) at h
+  cases hr : r.2 with
+  | ok u => cases u; rw [hr] at h; simp [h]
+  | error e => rw [hr] at h; simp [h]
+
+/-- the concrete tree the model driver runs (`Ns`, with symbolic links) uses the very same function -/
+theorem ns_create_dir_all_spec (h : Lawful Ns.ops) (ns : Ns) (p : Path) :
+    Good Ns.ops (ns.createDirAll p) p :=
+  create_dir_all_spec Ns.ops h (p.length + 1) ns p (by omega)
+
+/-! ### the laws are satisfiable: a plain tree of directories (no files, no links) -/
+
+/-- a parent-closed set of directories containing the root -/
+structure PlainTree where
+  has : Path → Bool
+  root : has [] = true
+  closed : ∀ p, has p = true → has p.dropLast = true
+
+def PlainTree.mkdir (t : PlainTree) (p : Path) : PlainTree × Except Nat Unit :=
+  if hp : t.has p = true then (t, .error EEXIST)
+  else if hq : t.has p.dropLast = true then
+    (⟨fun q => q == p || t.has q, by simp [t.root], by
+        intro q hq'
+        simp only [Bool.or_eq_true, beq_iff_eq] at hq' ⊢
+        rcases hq' with rfl | h
+        · exact Or.inr hq
+        · exact Or.inr (t.closed q h)⟩, .ok ())
+  else (t, .error ENOENT)
+
+def plainOps : FsOps PlainTree := ⟨PlainTree.mkdir, fun t p => t.has p⟩
+
+theorem plain_lawful : Lawful plainOps where
+  root := fun s => s.root
+  mkdir_ok := by
+    intro s p h
+    simp only [plainOps, PlainTree.mkdir] at h ⊢
+    by_cases hp : s.has p = true
+    · simp [hp] at h
+    · by_cases hq : s.has p.dropLast = true
+      · simp [hp, hq]
+      · simp [hp, hq] at h
+  mkdir_err := by
+    intro s p e h
+    simp only [plainOps, PlainTree.mkdir] at h ⊢
+    split
+    · rfl
+    · split
+      · rename_i h1 h2; simp [h1, h2] at h
+      · rfl
+  mkdir_enoent := by
+    intro s p h
+    simp only [plainOps, PlainTree.mkdir] at h ⊢
+    split at h
+    · simp [EEXIST, ENOENT] at h
+    · rename_i hp
+      simpa using hp
+  parent := fun s p h => s.closed p h
+
+/-- unconditional instance: on a plain tree `create_dir_all` is `Ok` iff the path is a directory afterwards -/
+theorem plain_create_dir_all_spec (t : PlainTree) (p : Path) :
+    Good plainOps (cda plainOps firstAttempt secondAttempt (p.length + 1) t p) p :=
+  create_dir_all_spec plainOps plain_lawful (p.length + 1) t p (by omega)
+
+/-! ### non-vacuity on the tree with links: file, directory, links to both, dangling link -/
+
+def exNs : Ns :=
+  { ents := [(["f"], .file 0), (["d"], .dir), (["lf"], .link 1 ["f"]), (["ld"], .link 2 ["d"]),
+             (["dang"], .link 3 ["nowhere"])], nextIno := 4 }
+
+example : (exNs.createDirAll ["f"]).2 = .error EEXIST := by rfl
+example : (exNs.createDirAll ["dang"]).2 = .error EEXIST := by rfl
+example : (exNs.createDirAll ["lf"]).2 = .error EEXIST := by rfl
+example : (exNs.createDirAll ["ld"]).2 = .ok () := by rfl
+example : (exNs.createDirAll ["f", "x"]).2 = .error ENOTDIR := by rfl
+example : (exNs.createDirAll ["ld", "x", "y"]).2 = .ok () := by rfl
+example : Ns.isDir (exNs.createDirAll ["ld", "x", "y"]).1 ["d", "x", "y"] = true := by rfl
+
+end DirUtil
 
 end Compio.Props.C08
